@@ -342,9 +342,21 @@ def history_ops(seed):
                                 steps=40, annealing=10, random_seed=seed)
         return m.fit(np.tile(RA, (3, 1, 1, 1)), np.tile(CA, (3, 1))).genotypes.tobytes()
 
-    ops = {"fitA": fitA, "fitB": fitB, "callA": callA, "callMH": callMH, "pedA": pedA, "nprand": lambda: np.random.rand(), "nbdraw": lambda: _nbdraw(),
+    # the same two distinct reads with different multiplicities (single SNV: "reference call" / "alternate call"): anything remembered from one fit that
+    # is keyed by the read matrix alone would be wrong for the other (the homozygosity screen fixes the SNV for 59:1 but not for 30:30)
+    RC = np.array([rd([0]), rd([1])])
+
+    def fitC1():
+        t = DenovoMCMC(ploidy=4, n_alleles=[2], steps=40, chains=1, random_seed=seed).fit(RC, np.array([30, 30]))
+        return t.genotypes.tobytes()
+
+    def fitC2():
+        t = DenovoMCMC(ploidy=4, n_alleles=[2], steps=40, chains=1, random_seed=seed).fit(RC, np.array([59, 1]))
+        return t.genotypes.tobytes()
+
+    ops = {"fitC1": fitC1, "fitC2": fitC2, "fitA": fitA, "fitB": fitB, "callA": callA, "callMH": callMH, "pedA": pedA, "nprand": lambda: np.random.rand(), "nbdraw": lambda: _nbdraw(),
            "npseed": lambda: np.random.seed(99), "nbseed": lambda: seed_numba(123)}
-    targets = ("fitA", "fitB", "callA", "callMH", "pedA")
+    targets = ("fitA", "fitB", "callA", "callMH", "pedA", "fitC1", "fitC2")
     return ops, targets
 
 
